@@ -89,7 +89,8 @@ theorem inplace_decoder_on_padded_text (lossy : Bool) (t : Buf) (i : Nat) (hi : 
     match StrIn.run lossy (StrIn.pad t) i with
     | .ok mem cnt e =>
       ∃ bs, Spec.stringS lossy (StrIn.pad t) i = some (bs, e) ∧ StrBlock.bytes mem i (i + cnt) = bs ∧
-        mem.size = (StrIn.pad t).size ∧ (∀ k, k < i → mem[k]? = (StrIn.pad t)[k]?) ∧ (∀ k, e ≤ k → mem[k]? = (StrIn.pad t)[k]?)
+        mem.size = (StrIn.pad t).size ∧ (∀ k, k < i → mem[k]? = (StrIn.pad t)[k]?) ∧ (∀ k, e ≤ k → mem[k]? = (StrIn.pad t)[k]?) ∧
+        i + cnt < e
     | .err _ => Spec.stringS lossy (StrIn.pad t) i = none
     | .fault => False
     | .fuel => False :=
@@ -108,11 +109,31 @@ theorem inplace_decoder_after_earlier_literals (lossy : Bool) (t mem0 : Buf) (i 
     match StrIn.run lossy mem0 i with
     | .ok mem cnt e =>
       ∃ bs, Spec.stringS lossy (StrIn.pad t) i = some (bs, e) ∧ StrBlock.bytes mem i (i + cnt) = bs ∧
-        mem.size = (StrIn.pad t).size ∧ (∀ k, k < i → mem[k]? = mem0[k]?) ∧ (∀ k, e ≤ k → mem[k]? = (StrIn.pad t)[k]?)
+        mem.size = (StrIn.pad t).size ∧ (∀ k, k < i → mem[k]? = mem0[k]?) ∧ (∀ k, e ≤ k → mem[k]? = (StrIn.pad t)[k]?) ∧
+        i + cnt < e
     | .err _ => Spec.stringS lossy (StrIn.pad t) i = none
     | .fault => False
     | .fuel => False :=
   StrIn.Post_unpack (StrIn.pad t) mem0 i _ _ (StrIn.run_spec_mem lossy t mem0 i hi h0 hag)
+
+/-- **all string literals of a document, decoded in place in one buffer** (`StrIn.runMany`: run after run on what the runs
+    before have left, as `parse_value` / `parse_array` / `parse_object` do with every string and member name): for every chain
+    of decodable literals of the padded text (`StrIn.Chain`: each starts inside the text at or behind the end of the one
+    before), every run reports the decoded length and the end the specification gives for that literal in the ORIGINAL text,
+    none faults, and at the end EVERY literal's decoding stands at its place in the final buffer — the `&str`s the DOM's
+    nodes point to are the decoded texts, whatever was decoded after them -/
+theorem inplace_decoding_of_all_literals (lossy : Bool) (t : Buf) (is : List Nat) (ds : List (List UInt8 × Nat))
+    (h : StrIn.Chain lossy t 0 is ds) :
+    ∃ memF, StrIn.runMany lossy (StrIn.pad t) is = some (memF, ds.map (fun d => (d.1.length, d.2))) ∧
+      memF.size = (StrIn.pad t).size ∧
+      ∀ n (hn : n < is.length) (hd : n < ds.length), StrBlock.bytes memF is[n] (is[n] + ds[n].1.length) = ds[n].1 := by
+  obtain ⟨memF, h1, h2, _, h4⟩ := StrIn.runMany_spec lossy t is ds 0 (StrIn.pad t) h rfl (fun _ _ => rfl)
+  exact ⟨memF, h1, h2, h4⟩
+
+/-- non-vacuity: `["a\nb","\u00e9","x"]`: three literals, the first two with escapes -/
+def ex3 : Buf := #[91, 34, 97, 92, 110, 98, 34, 44, 34, 92, 117, 48, 48, 101, 57, 34, 44, 34, 120, 34, 93]
+example : (StrIn.runMany false (StrIn.pad ex3) [2, 9, 18]).map (fun r => (r.2, StrBlock.bytes r.1 2 5, StrBlock.bytes r.1 9 11, StrBlock.bytes r.1 18 19)) =
+    some ([(3, 7), (2, 16), (1, 20)], [97, 10, 98], [0xC3, 0xA9], [120]) := by decide +kernel
 
 /-- … and the padding is what keeps it inside: on the bare text `"abc` (no closing quote, nothing behind it) the first
     block load already leaves the buffer -/
